@@ -83,7 +83,11 @@ class SobolevSpace:
                 "Unable to test for inclusion of a SobolevSpace in another SobolevSpace. "
                 "Did you mean to use <= instead?"
             )
-        return other.sobolev_space == self or self in other.sobolev_space.parents
+        try:
+            return other.sobolev_space <= self
+        except NotImplementedError:
+            # No known inclusion between the two spaces
+            return False
 
     def __lt__(self, other):
         """In common with intrinsic Python sets, < indicates "is a proper subset of"."""
@@ -154,9 +158,11 @@ class DirectionalSobolevSpace(SobolevSpace):
                 "Unable to test for inclusion of a SobolevSpace in another SobolevSpace. "
                 "Did you mean to use <= instead?"
             )
-        return other.sobolev_space == self or all(
-            self[i] in other.sobolev_space.parents for i in self._spatial_indices
-        )
+        try:
+            return other.sobolev_space <= self
+        except NotImplementedError:
+            # No known inclusion between the two spaces
+            return False
 
     def __eq__(self, other):
         """Check equality."""
